@@ -33,8 +33,17 @@ def run(rep: Report, tier: str) -> None:
     rep.rule("R29.1", "no case folding of component / dataset / alias names on the Python side")
     rep.rule("R29.2", "VTL name -> SQL identifier mapping is injective under case-insensitive comparison")
     n = 0
+    def _walk_with_lambdas(fn_node: ast.AST):
+        # like walk_no_nested, but a lambda (a sort key, a filter predicate) is part of the function that writes it
+        stack = list(ast.iter_child_nodes(fn_node))
+        while stack:
+            x = stack.pop()
+            yield x
+            if isinstance(x, (ast.FunctionDef, ast.AsyncFunctionDef, ast.ClassDef)):
+                continue
+            stack.extend(ast.iter_child_nodes(x))
     for f in P.iter_functions():
-        for c in walk_no_nested(f.node):
+        for c in _walk_with_lambdas(f.node):
             if not (isinstance(c, ast.Call) and isinstance(c.func, ast.Attribute) and c.func.attr in FOLD and not c.args):
                 continue
             n += 1
